@@ -49,12 +49,17 @@ def generate(seed: int, tier: str = "quick") -> dict:
     cfg = common.draw_config_any(r_cfg)
     pre = core.Counters()
     n = r_cfg.choice((1, 2, 3, 4, 6, 9))
-    frames = common.gen_mixed_frames(r_dev, r_lnk, n, cfg, pre)
+    variant = r_cfg.random() < 0.3
+    frames = common.gen_mixed_frames(r_dev, r_lnk, n, cfg, pre, variant_fault=variant)
+    if variant:
+        pre.hit("fault_firmware_variant")
     spans = sched.spans_of(frames)
     wire_len = spans[-1][1] if spans else 0
     roll = r_sch.random()
-    if roll < 0.45:
+    if roll < 0.38:
         tr = {"kind": "file"}
+    elif roll < 0.45:
+        tr = {"kind": "capfile", "cap": r_sch.choice((1, 2, 3, 7, 16, 20, 64))}
     elif roll < 0.8:
         tr = common.draw_transport(r_sch, wire_len, spans, kinds=("socket",))
         cfg["bufsize"] = r_sch.choice(sched.BUFSIZES)
@@ -146,6 +151,8 @@ def _run(scn, res=None):
         if tr.get("stress") == "stall":
             c.hit("stall_runs")
             c.hit("fault_stall", getattr(out.transport, "midstream_timeouts", 0))
+        if tr["kind"] == "capfile":
+            c.hit("fault_capped_read", out.transport.capped_reads)
         if tr["kind"] == "serial":
             c.hit("short_reads", out.transport.short_reads)
             c.hit("fault_short_read", out.transport.short_reads)
